@@ -27,7 +27,15 @@ impl<'a> GetLastStateProcess<'a> {
     }
 
     pub(crate) async fn execute(self) -> Status {
-        let subscribe: bool = self.message.subscribe().into();
+        // any byte is a well-formed molecule `Bool`; only 0 and 1 convert to `bool`
+        let subscribe = match self.message.subscribe().as_slice()[0] {
+            0 => false,
+            1 => true,
+            _ => {
+                return StatusCode::MalformedProtocolMessage
+                    .with_context("subscribe is not a boolean");
+            }
+        };
         if subscribe {
             self.nc.with_peer_mut(
                 self.peer,
